@@ -1,6 +1,6 @@
 (* InstancesConc.v — the concurrent model at the harness's key/value instance *)
 From Coq Require Import ZArith.
-From GB Require Import Model Conc Instances GI CInv NoDeadlock Lin Spec CInv3.
+From GB Require Import Model Conc Instances GI CInv NoDeadlock Lin Spec CInv3 NoGap.
 
 Definition c_st := st HK HV.
 Definition c_cstep := @cstep HK HV hltb.
@@ -21,3 +21,5 @@ Definition c_abs := @abs HK HV hltb.
 Definition c_lp_step := @lp_step HK HV hltb.
 Definition c_step_spec := @step_spec HK HV hltb.
 Definition c_all_pc_ok3_b := @all_pc_ok3_b HK HV hltb.
+Definition c_nogap_b := @nogap_st_b HK HV hltb.
+Definition c_scan_lo_b := @scan_lo_b HK HV hltb.
